@@ -55,7 +55,30 @@ def close_pool():
     global _POOL
     if _POOL is not None:
         _POOL.terminate()
+        _POOL.join()
         _POOL = None
+    sweep_scratch_roots()
+
+
+def sweep_scratch_roots():
+    """remove the (empty) per-process scratch roots of processes that no longer exist"""
+    import glob
+    import tempfile
+    base = os.environ.get("VERIF_TMP", tempfile.gettempdir())
+    for d in glob.glob(os.path.join(base, "isnap-verif-*")):
+        try:
+            pid = int(d.rsplit("-", 1)[1])
+            if pid != os.getpid():
+                os.kill(pid, 0)
+                continue                      # still running (possibly a worker of another check)
+        except ProcessLookupError:
+            pass
+        except (ValueError, PermissionError):
+            continue
+        try:
+            os.rmdir(d)                       # only when empty
+        except OSError:
+            pass
 
 
 class Budget:
